@@ -424,7 +424,7 @@ def codec_helpers(items):
     return helpers
 
 
-def expand_helpers(it, helpers, depth=2):
+def expand_helpers(it, helpers, depth=2, stop=()):
     """copy of a fn / method item with the calls to `helpers` replaced by their bodies (lib.inline: parameters bound by `let`, block marked
     `inlined:<name>`); calls of associated helpers `Self::h(..)` / `Type::h(..)` are followed like calls of free functions"""
     import copy
@@ -439,9 +439,43 @@ def expand_helpers(it, helpers, depth=2):
                     n[1] = ["path", segs[-1]]
         it = dict(it, body=body)
     try:
-        return inline_item(it, helpers, depth=depth, closures=False)
+        return inline_item(it, helpers, depth=depth, stop=stop, closures=False)
     except RecursionError:
         return it
+
+
+def expand_self_methods(it, items, depth=2):
+    """copy of a method item in which calls `self.h(args)` of inherent methods of the same type are replaced by
+    `{ let <param> = <arg>; .. <body of h> }` (marked `inlined:h` like lib.inline does): `self` inside the helper is the caller's `self`, so a
+    step of the method that was moved into a private `&mut self` helper is seen where it was"""
+    import copy
+    from lib.inline import _param_lets
+    th = X.type_head(it.get("self") or "")
+    methods = {}
+    for m_ in items:
+        if m_["k"] == "method" and not m_.get("trait") and m_.get("body") is not None and X.type_head(m_.get("self") or "") == th:
+            inputs = m_["sig"]["inputs"]
+            if inputs and isinstance(inputs[0], list) and inputs[0] and inputs[0][0] == "self":
+                methods.setdefault(m_["name"], m_)
+    log = []
+
+    def sub(e, d, stack):
+        if isinstance(e, dict):
+            return {k: sub(v, d, stack) for k, v in e.items()}
+        if not isinstance(e, list):
+            return e
+        out = [sub(x, d, stack) for x in e]
+        if d > 0 and is_node(out) and out[0] == "mcall" and out[1] == ["path", "self"] and out[2] in methods and out[2] not in stack:
+            h = methods[out[2]]
+            lets = _param_lets({"sig": {"inputs": h["sig"]["inputs"][1:]}}, out[4])
+            if lets is not None:
+                log.append(out[2])
+                return ["block", lets + sub(copy.deepcopy(h["body"]), d - 1, stack + (out[2],)), "inlined:%s" % out[2]]
+        return out
+    res = dict(it)
+    res["body"] = sub(copy.deepcopy(it["body"]), depth, (it["name"],))
+    res["inlined"] = sorted(set(log))
+    return res
 
 
 def run_r7(F, rep, crate):
@@ -613,7 +647,9 @@ def run_r8(F, rep, crate, tier="quick"):
     # the entry records the padded offset, and the blob is resized to it before the bytes are appended
     cc = [x for x in core if x["k"] == "method" and x["name"] == "compile_const" and x.get("body") and "CompileCtx" in (x.get("self") or "")]
     if rep.check(len(cc) == 1, "C07-R8", "anchor:CompileCtx::compile_const", "CompileCtx::compile_const not found (%d)" % len(cc)):
-        body = cc[0]["body"]
+        # the padding step may live in a private `&mut self` helper (`self.pad_blob(align)`) or a free function: looked at where it is called
+        # (never entering align_up itself: its call is what is looked for)
+        body = expand_helpers(expand_self_methods(cc[0], core), codec_helpers([x for x in core if (x.get("mod") or "").startswith("program")]), stop=(it["name"],))["body"]
         padded = None
         for st in find(body, "let"):
             if st[1][0] == "pident" and st[2] is not None and any((path_of(c[1]) or "").endswith("align_up") for c in find(st[2], "call")):
